@@ -660,7 +660,7 @@ func (g *Gen) intents() []intent {
 				q = append(q, KV{"error", lit("access_denied")}, KV{"error_reason", lit("user_denied")})
 			}
 			pa := &ProviderAnswer{ExchangeOK: g.rng.Intn(100) < 90, DetailsOK: g.rng.Intn(100) < 92,
-				UID: pickS(g.rng, "100", "100", "200", "a;b", "x;;y"), Email: "o@x.io", Token: "tok" + fmt.Sprint(g.rng.Intn(3)),
+				UID: pickS(g.rng, "100", "100", "200", "a;b", "x;;y", "Qx7fA", "qX7Fa"), Email: "o@x.io", Token: "tok" + fmt.Sprint(g.rng.Intn(3)),
 				Refresh: pickS(g.rng, "", "ref1")}
 			s := SymStep{Kind: "req", Req: &SymReq{Browser: b, Method: "GET", Route: "OAuthCallback", Arg: prov, Query: q}, PA: pa}
 			return one(s)
@@ -1031,7 +1031,7 @@ func (g *Gen) scenarios() []intent {
 			if g.rng.Intn(3) == 0 {
 				st.Req.Query = append(st.Req.Query, KV{"redir", lit(pickS(g.rng, "/after", "http://evil.test/"))})
 			}
-			pa := &ProviderAnswer{ExchangeOK: true, DetailsOK: true, UID: pickS(g.rng, "100", "200", "a;b"), Email: "o@x.io", Token: "tokA"}
+			pa := &ProviderAnswer{ExchangeOK: true, DetailsOK: true, UID: pickS(g.rng, "100", "200", "a;b", "Qx7fA", "qX7Fa"), Email: "o@x.io", Token: "tokA"}
 			cb := SymStep{Kind: "req", Req: &SymReq{Browser: b, Method: "GET", Route: "OAuthCallback", Arg: prov,
 				Query: []KV{{"state", Desc{K: "sessval", B: b, V: "oauth2_state"}}, {"code", lit("c")}}}, PA: pa}
 			out := []SymStep{st}
@@ -1169,6 +1169,19 @@ func (g *Gen) scenarios() []intent {
 			return []SymStep{st, cbOK, st, cbErr}
 		})
 	}
+	if c.has("auth") {
+		// a browser that is logged in as one account submits another account's identifier with its OWN
+		// password (and then with the right one)
+		add(boost(2, "general", "remember"), func() []SymStep {
+			m, v := g.known(), g.known()
+			if m == v {
+				return nil
+			}
+			b := g.browser()
+			return []SymStep{g.loginStep(b, m, Desc{K: "pw", U: m}, g.rng.Intn(3) == 0), g.loginStep(b, v, Desc{K: "pw", U: m}, false),
+				g.loginStep(b, v, Desc{K: "pw", U: v}, false)}
+		})
+	}
 	if c.has("auth") && c.Totp {
 		// the code that just completed a login is presented again at once from another browser, as it is
 		// and as a person might paste it (surrounding white space)
@@ -1193,8 +1206,12 @@ func (g *Gen) scenarios() []intent {
 			case 1:
 				again = Desc{K: "mut", D: &code, Op: "lead"}
 			}
-			return []SymStep{g.loginStep(b1, u, Desc{K: "pw", U: u}, false), g.req(b1, "POST", "TotpValidate", []KV{{"code", code}}),
-				g.loginStep(b2, u, Desc{K: "pw", U: u}, false), g.req(b2, "POST", "TotpValidate", []KV{{"code", again}})}
+			out := []SymStep{g.loginStep(b1, u, Desc{K: "pw", U: u}, false), g.req(b1, "POST", "TotpValidate", []KV{{"code", code}}),
+				g.loginStep(b2, u, Desc{K: "pw", U: u}, false)}
+			if g.rng.Intn(2) == 0 { // a wrong guess in between does not make the spent code fresh again
+				out = append(out, g.req(b2, "POST", "TotpValidate", []KV{{"code", lit(pickS(g.rng, "000000", "12345", "Passw0rd!x"))}}))
+			}
+			return append(out, g.req(b2, "POST", "TotpValidate", []KV{{"code", again}}))
 		})
 	}
 	if c.EmailAuth && (c.Totp || c.Sms) {
